@@ -256,6 +256,37 @@ fn mutate_documents(doc: &Value, rng: &mut SplitMix, out: &mut Vec<String>) {
     d["uplink"]["pending_data"] = json!([3, 7, 3, 7, 3, 7, 3, 7, 3, 7, 3, 7, 3, 7, 3]);
     d["uplink"]["pending_len"] = json!(15);
     out.push(d.to_string());
+    // alternative encodings of the same document: members in another order (sorted, reversed), and
+    // structs written as sequences of their values (the form of formats without field names; serde's
+    // derived visitors accept it) — the uplink sub-document in every order of its three members, with
+    // every pending_len
+    {
+        let rev = |v: &Value| -> String {
+            let o = v.as_object().unwrap();
+            let body: Vec<String> = o.iter().rev().map(|(k, x)| format!("{}:{}", json!(k), x)).collect();
+            format!("{{{}}}", body.join(","))
+        };
+        out.push(rev(doc));
+        let mut d = doc.clone();
+        let up = d["uplink"].clone();
+        out.push(doc.to_string().replacen(&up.to_string(), &rev(&up), 1));
+        let names = ["confirmed", "pending_len", "pending_data"];
+        let perms = [[0usize, 1, 2], [0, 2, 1], [1, 0, 2], [1, 2, 0], [2, 0, 1], [2, 1, 0]];
+        for perm in perms {
+            for pl in (0..=255u64).filter(|pl| *pl <= 17 || *pl % 16 >= 14 || perm == [0, 1, 2]) {
+                let mut u = up.clone();
+                u["pending_len"] = json!(pl);
+                d["uplink"] = Value::Array(perm.iter().map(|i| u[names[*i]].clone()).collect());
+                out.push(d.to_string());
+            }
+        }
+        // the whole session as a sequence, members in document order and in sorted order
+        let vals: Vec<Value> = doc.as_object().unwrap().values().cloned().collect();
+        out.push(Value::Array(vals.clone()).to_string());
+        let mut vals2 = vals;
+        vals2.reverse();
+        out.push(Value::Array(vals2).to_string());
+    }
     // counters at the limits
     for v in [0u64, 0xFFFF, 0x10000, 0xFFFF_FFFE, 0xFFFF_FFFF] {
         for k in ["fcnt_up", "fcnt_down", "adr_ack_cnt"] {
@@ -317,7 +348,7 @@ pub fn history_strategy() -> impl Strategy<Value = History> {
 }
 
 pub fn run(ctx: &mut Ctx) {
-    ctx.rule = "(A0) every field: the Debug rendering (all fields, persisted or not) of the deserialised session equals that of the original, at every step boundary and, on the nb front-end, at every event inside every transaction (the application can read the session there); (A) crash-point enumeration: proptest histories (MAC-bearing downlinks so that pending answers of every length incl. full 15 bytes occur, owed ACKs, ADR counts, counters at 16/32-bit boundaries, OTAA and ABP) and for EVERY prefix length k: serialise the session with serde_json, deserialise, re-serialise and compare; build a second device from the restored session (same region and public configuration calls) and run both on a fixed-shape suffix of 4 transactions (time-outs, replays of frames accepted before the crash point, fresh authentic downlinks, a port-0 uplink): uplink bytes, responses, remembered counters and session documents must stay equal. (B) structurally mutated documents (every field dropped / renamed / null / wrong type / out-of-range number, array length +-1, pending_len 0..255, counters at type limits, duplicate field, truncation at every byte, random byte edits): Err, or a session on which a 7-transaction history stays panic- and hang-free. Non-trivial: snapshot with fcnt_down = Some or pending answers or an owed ACK; mutated documents that are accepted; distinct by hash".into();
+    ctx.rule = "(A0) every field: the Debug rendering (all fields, persisted or not) of the deserialised session equals that of the original, at every step boundary and, on the nb front-end, at every event inside every transaction (the application can read the session there); (A) crash-point enumeration: proptest histories (MAC-bearing downlinks so that pending answers of every length incl. full 15 bytes occur, owed ACKs, ADR counts, counters at 16/32-bit boundaries, OTAA and ABP) and for EVERY prefix length k: serialise the session with serde_json, deserialise, re-serialise and compare; build a second device from the restored session (same region and public configuration calls) and run both on a fixed-shape suffix of 4 transactions (time-outs, replays of frames accepted before the crash point, fresh authentic downlinks, a port-0 uplink): uplink bytes, responses, remembered counters and session documents must stay equal. (B) structurally mutated documents (members reordered; structs written as sequences of their values, the uplink sub-document in every member order x every pending_len; every field dropped / renamed / null / wrong type / out-of-range number, array length +-1, pending_len 0..255, counters at type limits, duplicate field, truncation at every byte, random byte edits): Err, or a session on which a 7-transaction history stays panic- and hang-free. Non-trivial: snapshot with fcnt_down = Some or pending answers or an owed ACK; mutated documents that are accepted; distinct by hash".into();
     ctx.level = "fault_enumeration".into();
     ctx.assumptions = vec![
         "negotiated MAC parameters and the channel plan are not part of the Session type; after a restore they restart from the regional defaults, so RX/TX radio configurations are not compared, only frames, responses and session documents".into(),
